@@ -609,6 +609,36 @@ def rule_AI13(rep, prog, q):
         rep.unknown(rid, "fewer than 8 atomic read-modify-writes of dq_state found (%d)" % n)
 
 
+def rule_AI14(rep, prog, q):
+    from .common import concrete_walk_any
+    rid = rep.rule("C06-AI14", "a drainer leaves a suspended queue alone: _dispatch_queue_drain_try_unlock, evaluated over (suspended?, DIRTY?), commits the unlock whenever the "
+                   "queue is suspended - DIRTY makes it renew the lock (and the caller re-enter the drain) only when the queue is NOT suspended; otherwise a merge or "
+                   "push that lands while the object is suspended sends the lock holder back into the invoke function, which runs work on a suspended object", floor=4)
+    fn = prog.fn("_dispatch_queue_drain_try_unlock")
+    rep.saw(fn)
+    sl = [l for l in fn.all_insts() if l.op == "load" and (prog.fields(l) & DQ_STATE)]
+    cx = [c for c in fn.all_insts() if c.op == "cmpxchg" and (prog.fields(c) & DQ_STATE)]
+    renew = [x for x in fn.all_insts() if x.op == "atomicrmw" and (prog.fields(x) & DQ_STATE)]
+    if not sl or not cx or not renew:
+        rep.unknown(rid, "anchor vanished in _dispatch_queue_drain_try_unlock (loads=%d cas=%d renew=%d)" % (len(sl), len(cx), len(renew)))
+        return
+    base = q.WIDTH_FULL_BIT | q.IN_BARRIER | 0x1234
+    for susp in (0, 1, 2):
+        for dirty in (0, 1):
+            S = base | (q.DIRTY if dirty else 0) | susp * q.SUSPEND_INTERVAL
+            env = {l.id: S for l in sl}
+            env[("a", 1)] = q.IN_BARRIER
+            env[("a", 2)] = 0
+            hit, _e = concrete_walk_any(fn, env, lambda i: i in cx or i in renew)
+            commits = hit in cx
+            want_commit = bool(susp) or not dirty
+            rep.require(rid, hit is not None and commits == want_commit, fn.file + ":" + str(fn.d.get("line")), fn.name, "try-unlock-decision:%d:%d" % (susp, dirty),
+                        "_dispatch_queue_drain_try_unlock on a queue with suspend count %d and DIRTY %s %s; expected %s: with DIRTY taking precedence over suspension the "
+                        "lock holder re-enters the invoke function on a suspended object - a dispatch source's handler then runs (and delivers merged data) while the "
+                        "source is suspended" % (susp, "set" if dirty else "clear", "commits the unlock" if commits else "renews the lock",
+                                                   "commit" if want_commit else "renew"), sample={"suspended": susp, "dirty": dirty})
+
+
 def run(rep, tier="quick", srcdir=None, only=None):
     prog, units = load(UNITS, tier, srcdir)
     rep.units = units
@@ -643,6 +673,8 @@ def run(rep, tier="quick", srcdir=None, only=None):
         rule_CP12(rep, prog, q)
     if want("C06-AI13"):
         rule_AI13(rep, prog, q)
+    if want("C06-AI14"):
+        rule_AI14(rep, prog, q)
     if want("C04-AI17"):
         # "after the last resume every pending item runs": a suspension that lands while a concurrent drainer is parked in front of a barrier must not make the
         # drainer reserve the barrier's width twice - the queue would be resumed, unlocked and never runnable again (shared with C04)
